@@ -42,9 +42,16 @@ def check(ctx):
                 if lib.edge_dominates(f, br.bb, tgt, None, err_bbs[0]):
                     edge = tgt
             rel = br.holds_on(edge) if edge is not None else None
-            good = (rel is not None and rel[0] == "<" and lib.mentions_field(rel[1], "interpreter_version")
-                    and lib.mentions_param(rel[1], "versions")
-                    and lib.mentions_call(rel[2], "min_supported_version"))
+            # the operands are the WHOLE versions (a semver::Version each — not a projection such as (major, minor, patch),
+            # which would ignore the pre-release tag), compared by semver's own ordering
+            def whole_version(e):
+                e = lib.strip(e)
+                return e[0] == "field" and e[2] == "interpreter_version" and e[1][0] == "param" and e[1][1] == "versions"
+            def whole_min(e):
+                e = lib.strip(e)
+                return e[0] == "call" and e[1].endswith("min_supported_version") and not e[2]
+            by_semver = br.expr[0] == "call" and "PartialOrd" in br.expr[1] and all("semver::Version" in t and "(" not in t for t in br.expr[3].atys)
+            good = (rel is not None and rel[0] == "<" and whole_version(rel[1]) and whole_min(rel[2]) and by_semver)
             ctx.require(good, "R-OP", "cvc:lt-min",
                         "Err edge iff %s" % ("%s %s %s" % (show(rel[1]), rel[0], show(rel[2])) if rel else "?"),
                         "check_version_compatibility rejects when `%s`, expected `versions.interpreter_version < min_supported_version()`"
